@@ -10,7 +10,7 @@ Open Scope N_scope.
    successful seek answers the new position; hence after a successful seek the data delivered until
    the next seek is pcm_bytes[t..] in order, and after a failed seek the cursor is where it was or
    at the end, where nothing is delivered. *)
-Theorem C06_byte_reader : forall F ops, valid_file F ->
+Theorem C06_byte_reader : forall F, valid_file F -> forall ops,
   Forall bop_ok (snd (byte_run F ops)) ->
   let atr := map (abs_b F) (snd (byte_run F ops)) in
   Forall (cur_ok (pcm_bytes F)) atr /\ chained 0 atr (bpos F (fst (byte_run F ops))) /\
@@ -19,7 +19,7 @@ Proof. exact c06_bytes. Qed.
 
 (* Sample reader (and iterator): seek s with s <= total lands on interleaved sample s * channels;
    s > total (or a reader opened without Seek) fails. *)
-Theorem C06_sample_reader : forall F ops, valid_file F ->
+Theorem C06_sample_reader : forall F, valid_file F -> forall ops,
   Forall sop_ok (snd (sample_run F ops)) ->
   let atr := map (abs_s F) (snd (sample_run F ops)) in
   Forall (cur_ok (pcm F)) atr /\ chained 0 atr (spos F (fst (sample_run F ops))) /\
@@ -27,36 +27,36 @@ Theorem C06_sample_reader : forall F ops, valid_file F ->
 Proof. exact c06_samples. Qed.
 
 (* Channel reader, every channel. *)
-Theorem C06_channel_reader : forall F ops c, valid_file F ->
+Theorem C06_channel_reader : forall F, valid_file F -> forall ops c,
   (c < N.to_nat (f_channels F))%nat ->
   Forall cop_ok (snd (chan_run F ops)) ->
   let atr := map (abs_c F c) (snd (chan_run F ops)) in
   Forall (cur_ok (chan_pcm F c)) atr /\ chained 0 atr (cpos (fst (chan_run F ops))) /\
   seeks_land (chan_pcm F c) atr /\ failed_seeks_safe (chan_pcm F c) atr.
-Proof. intros F ops c V. exact (c06_channels F V ops c). Qed.
+Proof. exact c06_channels. Qed.
 
 (* The invariants: buffered data ++ data from the decoder position = data from the logical position. *)
-Theorem C06_byte_invariant : forall F ops, valid_file F ->
+Theorem C06_byte_invariant : forall F, valid_file F -> forall ops,
   Forall bop_ok (snd (byte_run F ops)) ->
   let r := fst (byte_run F ops) in
   br_buf r ++ bdata F (d_rest (br_dec r)) = dropN (bpos F r) (pcm_bytes F) /\
   bdata F (d_rest (br_dec r)) = dropN (d_cur (br_dec r) * bytes_per_pcm_frame F) (pcm_bytes F).
 Proof. exact c06_byte_invariant. Qed.
 
-Theorem C06_sample_invariant : forall F ops, valid_file F ->
+Theorem C06_sample_invariant : forall F, valid_file F -> forall ops,
   Forall sop_ok (snd (sample_run F ops)) ->
   let r := fst (sample_run F ops) in
   sr_buf r ++ sdata (d_rest (sr_dec r)) = dropN (spos F r) (pcm F) /\
   sdata (d_rest (sr_dec r)) = dropN (d_cur (sr_dec r) * f_channels F) (pcm F).
 Proof. exact c06_sample_invariant. Qed.
 
-Theorem C06_channel_invariant : forall F ops c, valid_file F ->
+Theorem C06_channel_invariant : forall F, valid_file F -> forall ops c,
   (c < N.to_nat (f_channels F))%nat ->
   Forall cop_ok (snd (chan_run F ops)) ->
   let r := fst (chan_run F ops) in
   dropN (cr_consumed r) (nth c (d_buf (cr_dec r)) []) ++ cdata c (d_rest (cr_dec r)) =
     dropN (cpos r) (chan_pcm F c).
-Proof. intros F ops c V. exact (c06_chan_invariant F V ops c). Qed.
+Proof. exact c06_chan_invariant. Qed.
 
 (* ---- non-vacuity: concrete histories with seeks that satisfy the hypotheses *)
 Example C06_nonvacuous_samples :
